@@ -76,7 +76,7 @@ type EventOpts struct {
 func GenSyscallGroup(r *mon.Rand, o EventOpts) Group {
 	u := &uniq{r: r}
 	hdr := fmt.Sprintf("msg=audit(%d.%03d:%d):", 1490000000+r.Intn(1e8), r.Intn(1000), r.Uint32())
-	syscalls := []string{"2", "59", "42", "43", "49", "257", "82", "87", "90", "92", "105", "165", "175", "41", "44", "45", "9", "288", "1", "3"}
+	syscalls := []string{"2", "59", "42", "43", "49", "257", "82", "87", "90", "92", "105", "165", "175", "41", "44", "45", "9", "288", "1", "3", "43", "45", "47", "42", "46"}
 	sc := mon.Pick(r, syscalls)
 	if o.Mode >= 0 {
 		sc = mon.Pick(r, []string{"2", "257", "82", "87", "90", "92"}) // file syscalls: a PATH is selected
@@ -179,10 +179,30 @@ func GenSyscallGroup(r *mon.Rand, o EventOpts) Group {
 		}
 		add(l)
 	}
+	userFirst := ""
+	if r.Chance(1, 8) && o.Mode < 0 {
+		// a user-space style record in the same event (addr / hostname / terminal / acct fields), often first
+		t := mon.Pick(r, []string{"USER_LOGIN", "USER_ERR", "USER_START", "CRYPTO_KEY_USER", "CRYPTO_SESSION", "USER_AUTH", "USER_CMD", "USER_AVC", "CRED_ACQ"})
+		l := fmt.Sprintf("type=%s %s pid=%s uid=%s auid=%s ses=%s msg='op=%s acct=\"%s\" exe=\"/usr/sbin/%s\" hostname=%s addr=203.0.%d.%d terminal=%s res=success'",
+			t, hdr, u.num(), u.num(), u.num(), u.num(), u.word("op"), u.word("acct"), u.word("ux"), u.word("host"), r.Intn(250), r.Intn(250)+1, u.word("term"))
+		if r.Chance(2, 3) {
+			userFirst = l
+		} else {
+			add(l)
+		}
+	}
 	if r.Chance(1, 2) && o.Mode < 0 {
 		mon.Shuffle(r, rest)
 	}
 	g := Group{}
+	if userFirst != "" {
+		g.Lines = append(g.Lines, userFirst, sys)
+		g.Lines = append(g.Lines, rest...)
+		if r.Chance(1, 2) {
+			g.Lines = append(g.Lines, fmt.Sprintf("type=EOE %s ", hdr))
+		}
+		return g
+	}
 	if r.Chance(1, 6) && len(rest) > 0 && o.Mode < 0 {
 		// a non-SYSCALL record first (as SECCOMP/AVC events can be)
 		g.Lines = append(g.Lines, rest[0], sys)
